@@ -175,3 +175,13 @@ package expressions
 //@ loop 1 invariant count: nargs == 1 + _i && len(args) == nargs && fresh(args) && args[0] == recv && has(ctx.Config.filters, name)
 //@ ensures known: has(ctx.Config.filters, name)
 //@ ensures cells: @evalframe
+
+// ASSUMPTION (listed in evidence): every entry of a Config's filter table is a function.
+// AddFilter panics unless its argument is one (proved below) and the table has no other
+// writer; the invariant is assumed where an evaluation context is created from a Config.
+//@ func expressions.NewContext
+//@ unverified
+//@ props C08 C01
+//@ panics nothing
+//@ assigns alloc F$expressions.context$Config, alloc F$expressions.context$bindings
+//@ ensures ctx: result != nil && is(result, *expressions.context) && fresh(as(result, *expressions.context)) && valid(as(result, *expressions.context)) && as(result, *expressions.context).bindings == vars
